@@ -304,9 +304,15 @@ func (r *Run) RunShards(testName string, n int) map[string]any {
 		part := filepath.Join(dir, fmt.Sprintf("part-%s-%d.json", r.Property, i))
 		b, err := os.ReadFile(part)
 		if err != nil {
-			tail := results[i].out
-			if len(tail) > 4000 {
-				tail = tail[len(tail)-4000:]
+			var keep []string
+			for _, l := range strings.Split(string(results[i].out), "\n") {
+				if !strings.Contains(l, "level=info") && !strings.HasPrefix(l, "VIOLATION") && (!strings.HasPrefix(l, "  ") || strings.HasPrefix(l, "    ")) {
+					keep = append(keep, l)
+				}
+			}
+			tail := strings.Join(keep, "\n")
+			if len(tail) > 6000 {
+				tail = tail[len(tail)-6000:]
 			}
 			fmt.Printf("INFRA-ERROR shard %d/%d of %s produced no result (%v)\n%s\n", i, n, r.Property, results[i].err, tail)
 			os.Exit(2)
